@@ -16,7 +16,7 @@
 (* the repaired one (Quirks <- NoQuirks), where all of them must hold.       *)
 (***************************************************************************)
 EXTENDS Area, TLC, Json
-CONSTANTS MaxW, MaxH, MinCells, MaxCells, AlphaName, Prot
+CONSTANTS MaxW, MaxH, MinCells, MaxCells, AlphaName, Prot, OpSet
 
 CA == <<65, 7, 0, 0, 0>>          \* 'A'
 CS == <<32, 7, 0, 0, 0>>          \* a visible space on black: visible, but blank for justify / center
@@ -49,12 +49,14 @@ Init ==
   /\ o = NoOp /\ r = Res("ok", d)
 
 L0 == d.layers[1]
+\* OpSet = "area": only the operations without a cell position (for the largest grids), "all": every operation
 OpsFor(w, h) ==
   {Op0(n) : n \in AreaOps \cup ScrollOps \cup {"erase_selection", "crop"}}
   \cup {Op1(n, y) : n \in LineOps, y \in 0..(h - 1)}
-  \cup {Op2(n, x, y) : n \in EraseOps, x \in 0..(w - 1), y \in 0..(h - 1)}
   \cup {Op1(n, y) : n \in {"delete_row", "insert_row"}, y \in 0..h}
   \cup {Op1(n, x) : n \in {"delete_column", "insert_column"}, x \in 0..w}
+  \cup IF OpSet = "area" THEN {} ELSE
+  {Op2(n, x, y) : n \in EraseOps, x \in 0..(w - 1), y \in 0..(h - 1)}
   \cup {[op |-> "set_char", a |-> <<x, y>>, c |-> c] : x \in 0..w, y \in 0..(h - 1), c \in Alphabet}
   \cup {[op |-> "swap_char", a |-> <<t[1][1], t[1][2], t[2][1], t[2][2]>>, c |-> Inv] :
           t \in {u \in ((0..(w - 1)) \X (0..(h - 1))) \X ((0..w) \X (0..(h - 1))) : u[2][2] > u[1][2] \/ (u[2][2] = u[1][2] /\ u[2][1] >= u[1][1])}}
